@@ -76,6 +76,9 @@ func newModel(thorough bool) *chainprop.Model {
 	add("killDelegator P->D2")
 	add("replenish X1->D2 bal")
 	add("online D1")
+	add("delegate N1->P")
+	add("killDelegator P->N1")
+	m.Acts = append(m.Acts, chainprop.Action{Name: "block-proposed-by-pool-P", By: "P", Expand: true})
 	m.Acts = append(m.Acts,
 		chainprop.Action{Name: "empty-block", Empty: true, Expand: true},
 		chainprop.Action{Name: "run-ceremony-to-epoch-end", Macro: "epoch", Expand: true},
